@@ -63,6 +63,15 @@ enum Api {
     ReaderWith(&'static Encoding, Vec<usize>),
 }
 
+#[cfg(feature = "native")]
+fn ca_cert() -> native_tls::Certificate {
+    native_tls::Certificate::from_pem(crate::tlspeer::CA_PEM.as_bytes()).expect("CA pem")
+}
+#[cfg(all(feature = "rustls-backend", not(feature = "native")))]
+fn ca_cert() -> rustls::pki_types::CertificateDer<'static> {
+    rustls_pemfile::certs(&mut crate::tlspeer::CA_PEM.as_bytes()).next().unwrap().unwrap()
+}
+
 pub fn scenario(g: &mut G, ctx: &RunCtx) -> RunReport {
     let body_enc = Encoding::for_label(g.pick(LABELS).as_bytes()).unwrap();
     let max = if ctx.thorough { 120_000 } else { 30_000 };
@@ -202,16 +211,28 @@ pub fn scenario(g: &mut G, ctx: &RunCtx) -> RunReport {
             while second.len() < 1024 + g.usize_below(3000) {
                 second.extend_from_slice(unit.as_bytes());
             }
+            // (no draw) the same in gb18030 / GBK, whose four-octet sequences have ASCII digits in second and
+            // fourth place: cut after the lead and the digit (or after three octets), then nothing but ASCII
+            let gb = first.len() % 3 == 0;
+            let enc: &'static Encoding = if gb { encoding_rs::GB18030 } else { encoding_rs::UTF_8 };
+            if gb {
+                g.probe("truncated-gb18030-four-octet-sequence-then-ascii");
+                let n = first.len();
+                first = encode_text(encoding_rs::GB18030, TEXTS[n % TEXTS.len()]);
+                first.extend_from_slice([&[0x81u8, 0x30][..], &[0x84, 0x31][..], &[0x81, 0x30, 0x81][..], &[0xfe, 0x39][..]][n % 4]);
+                let m = second.len();
+                second = "plain ascii run 0123456789 ".bytes().cycle().take(m).collect();
+            }
             payload = first.clone();
             payload.extend_from_slice(&second);
-            let ct = "text/plain; charset=utf-8".to_string();
-            header_label = Some((ct.clone(), Some(encoding_rs::UTF_8)));
-            selected = Some(encoding_rs::UTF_8);
+            let ct = if gb { format!("text/plain; charset={}", ["gb18030", "gbk", "GB18030"][first.len() % 3]) } else { "text/plain; charset=utf-8".to_string() };
+            header_label = Some((ct.clone(), Some(enc)));
+            selected = Some(enc);
             api = match g.below(4) {
                 0 => Api::Text,
                 1 => Api::Reader(vec![8192]),
                 2 => Api::Reader(vec![16, 9000]),
-                _ => Api::ReaderWith(encoding_rs::UTF_8, vec![64, 4096]),
+                _ => Api::ReaderWith(enc, vec![64, 4096]),
             };
             body_kind = "truncated-then-long-valid-run";
             // two chunks (or two segments of a length-delimited body), the boundary right after the cut sequence
@@ -258,6 +279,10 @@ pub fn scenario(g: &mut G, ctx: &RunCtx) -> RunReport {
             }
             // (no draw) what the request says it would like to receive decides nothing about how the response
             // is read: that is the response's label, then the configured default, then the fallback
+            // (no draw) a setting that has nothing to do with text, made after the charset ones
+            if payload_len_for_hdr % 4 == 2 {
+                rb = rb.add_root_certificate(ca_cert()).max_redirections(3);
+            }
             if accept_charset_hdr {
                 rb = rb.header("Accept-Charset", ["utf-8", "iso-8859-2", "shift_jis", "utf-16le", "koi8-r"][payload_len_for_hdr % 5]).header("Accept-Language", "fr");
             }
